@@ -11,8 +11,10 @@
    in "dec" records.                                                        *)
 EXTENDS MobileAlloc, TraceKit
 
+VARIABLE oca      \* the ordered cell allocation of the current call (OrdOfAsc of the logged list)
+
 TInit ==
-  /\ KInit
+  /\ KInit /\ oca = <<>>
   /\ ca = {} /\ ma = <<>> /\ si4 = FALSE /\ pc = "idle" /\ i = 0 /\ j = 0
   /\ f = <<>> /\ hopping = <<>> /\ hopp_len = 0 /\ hmask = {} /\ rc = NotReturned
 
@@ -35,7 +37,7 @@ TDec ==
        /\ Tag("C20.decode.set", Range(Ev.hopping) = Range(d.hop))
        /\ Tag("C20.decode.order", Ev.hopping = d.hop)
        /\ Tag("C20.decode.si4-mask", Ev.si4 = 1 => Range(Ev.hoppMask) = Range(d.hop))
-  /\ UNCHANGED avars
+  /\ UNCHANGED <<avars, oca>>
   /\ Adv
 
 ----------------------------------------------------------------------------
@@ -51,7 +53,7 @@ Expected ==
 TInt ==
   /\ Expected = "internal"
   /\ Entry \/ Gen \/ Hop \/ HopSet
-  /\ UNCHANGED kvars
+  /\ UNCHANGED <<kvars, oca>>
 
 DoCall ==
   /\ Tag("C20.record.well-formed", WellFormed(Ev) /\ IsAsc(Ev.pre))
@@ -60,6 +62,7 @@ DoCall ==
   /\ f' = [k \in 0..(OctetBits * Len(Ev.bitmap) - 1) |-> Undef]
   /\ hopping' = [k \in 0..MaxHop - 1 |-> Undef]
   /\ hopp_len' = Ev.stale /\ hmask' = Range(Ev.pre) /\ rc' = NotReturned
+  /\ oca' = OrdOfAsc(Ev.ca)
 
 DoRet ==
   /\ Tag("C20.alg.rc", Ev.rc = rc)
@@ -67,7 +70,7 @@ DoRet ==
        /\ Tag("C20.alg.hopp-len", Ev.hoppLen = hopp_len)
        /\ Tag("C20.alg.hopping", Ev.hopping = [k \in 1..hopp_len |-> hopping[k - 1]])
   /\ Tag("C20.alg.hopp-flags", Range(Ev.hoppMask) = hmask)
-  /\ Tag("C20.alg.refines", Refines)
+  /\ Tag("C20.alg.refines", RefinesWith(DecodeOrd(oca, ma)))
   /\ pc' = "idle"
   /\ UNCHANGED <<ca, ma, si4, i, j, f, hopping, hopp_len, hmask, rc>>
 
@@ -79,13 +82,13 @@ TStep ==
   /\ Tag("C20.alg.bit-index-in-bounds", Ev.e = "h" => Ev.i < FLen)
   /\ Tag("C20.alg.expected-" \o Expected, Ev.e = Expected)
   /\ CASE Expected = "call" -> DoCall
-       [] Expected = "s" -> Tag("C20.alg.f-write", Ev.j = j /\ Ev.arfcn = i % NArfcn) /\ GenWrite
-       [] Expected = "h" -> Tag("C20.alg.bit-index", Ev.i = i) /\ Hop
-       [] Expected = "x" -> Tag("C20.alg.stop", Ev.idx = i + 1 /\ Ev.j = j) /\ HopSet
-       [] Expected = "ret" -> DoRet
+       [] Expected = "s" -> Tag("C20.alg.f-write", Ev.j = j /\ Ev.arfcn = i % NArfcn) /\ GenWrite /\ oca' = oca
+       [] Expected = "h" -> Tag("C20.alg.bit-index", Ev.i = i) /\ Hop /\ oca' = oca
+       [] Expected = "x" -> Tag("C20.alg.stop", Ev.idx = i + 1 /\ Ev.j = j) /\ HopSet /\ oca' = oca
+       [] Expected = "ret" -> DoRet /\ oca' = oca
   /\ Adv
 
 TNext == TDec \/ TInt \/ TStep
-TSpec == TInit /\ [][TNext]_<<avars, kvars>>
+TSpec == TInit /\ [][TNext]_<<avars, kvars, oca>>
 Post == WriteVerdicts
 =============================================================================
